@@ -5,15 +5,8 @@
 # live in the touched package are run against it; any VIOLATION / ENGINE-ERROR / non-zero exit is a
 # false alarm of the machinery. /repo itself is never touched.
 # usage: benigntest.sh [ids...]  -> writes /verif/benign/RESULTS.tsv
-cd /verif
-export VERIF_EVIDENCE_DIR=$(mktemp -d)
-wt=$(mktemp -d /tmp/benign-wt-XXXXXX)
-git -C /repo worktree add -q --detach "$wt" HEAD || { echo "cannot create worktree"; exit 3; }
-trap 'git -C /repo worktree remove --force "$wt" 2>/dev/null; rm -rf "$wt" "$VERIF_EVIDENCE_DIR"; git -C /repo worktree prune' EXIT
-[ -x bin/govc ] || (cd govc && GOFLAGS=-mod=mod GOPROXY=off go build -o ../bin/govc .)
-cp bin/govc "$VERIF_EVIDENCE_DIR/govc"
-export GOVC_REPO="$wt" GOFLAGS=-mod=mod GOPROXY=off
-ids="$@"; [ -z "$ids" ] && ids=$(ls benign | grep -E '^B[0-9]+\.diff$' | sed 's/\.diff//')
+. /verif/tools/scratch_env.sh
+ids="$@"; [ -z "$ids" ] && ids=$(ls /verif/benign | grep -E '^B[0-9]+\.diff$' | sed 's/\.diff//')
 out=/verif/benign/RESULTS.tsv; tmp=$(mktemp)
 for id in $ids; do
   if ! git -C "$wt" apply --check /verif/benign/$id.diff 2>/dev/null; then echo -e "$id\t-\tpatch-does-not-apply\t-" >> $tmp; echo "$id patch-does-not-apply"; continue; fi
@@ -23,12 +16,13 @@ for id in $ids; do
   fn=$(awk -F'\t' -v id=$id '$1==id{print $3}' /verif/benign/INDEX.txt | sed 's/.*\.//')
   props=$(python3 /verif/tools/benign_props.py "$pkg" "$fn")
   for prop in $props; do
-    res=$("$VERIF_EVIDENCE_DIR/govc" check -prop $prop -tier quick 2>&1); rc=$?
+    res=$("$govc" check -prop $prop -tier quick 2>&1); rc=$?
     what=$(echo "$res" | grep -E "VIOLATION|ENGINE-ERROR" | head -2 | cut -c1-260 | tr '\n' '|')
     if [ $rc -eq 0 ] && [ -z "$what" ]; then verdict=quiet; else verdict=FALSE-ALARM; fi
     echo -e "$id\t$prop\t$verdict\t$what" >> $tmp
     echo "$id $prop $verdict $what"
   done
   git -C "$wt" checkout -q -- . ; git -C "$wt" clean -fdq
+  rm -rf "$snap/out"/*
 done
 if [ $# -eq 0 ]; then mv $tmp $out; else cat $tmp; rm -f $tmp; fi
